@@ -418,6 +418,7 @@ def op_catalogue(op: dict, log: EventLog, viol: list, stats: Counter) -> None:
 
 
 _CATALOGUE_OUTCOMES: dict[str, str] = {}
+_EXECUTED: list[dict] = []  # opt_abort operations executed so far in this interpreter (explicit, replayable)
 
 
 def np_shape(x: Any) -> Any:
@@ -491,6 +492,12 @@ def run(plan: dict) -> dict:
     handlers = {"opt_abort": op_opt_abort, "lower_fault": op_lower_fault, "catalogue": op_catalogue}
     samples: list = []
     programs_done: list[dict] = []
+    def with_history(n_before: int, op_: dict) -> None:
+        # violations of the policy half may depend on the history of the strict switch in this process
+        for v in viol[n_before:]:
+            if v.get("cls") in ("strict_swallowed", "default_raised"):
+                v["replay_ops_with_history"] = list(_EXECUTED) + [op_]
+
     for op in plan["ops"]:
         if op["op"] == "list_registry":
             from sim import programs
@@ -523,14 +530,22 @@ def run(plan: dict) -> dict:
             log.add(op="enum", pid=op["pid"], n_eqn=len(c.eqns), n_fn=c.n_fn, n_sub=len(subs), control_digest=c.digest, control_valid=c.valid, control_jax=c.jax_ok)
             programs_done.append({"pid": op["pid"], "eqns": len(c.eqns), "fns": c.n_fn, "crash_points": len(subs), "control_valid": c.valid, "control_numeric": c.jax_ok})
             for s in subs:
+                n_before = len(viol)
                 handlers[s["op"]](s, log, viol, stats)
+                with_history(n_before, s)
+                if s["op"] == "opt_abort":
+                    _EXECUTED.append(s)
                 stats["crash_points"] += 1
             if len(samples) < 3 and subs:
                 samples.append(subs[len(subs) // 2])
             # free the control to bound memory
             _CONTROLS.pop(op["pid"], None)
         else:
+            n_before = len(viol)
             handlers[op["op"]](op, log, viol, stats)
+            with_history(n_before, op)
+            if op["op"] == "opt_abort":
+                _EXECUTED.append(op)
             stats["crash_points"] += 1
     return {
         "violations": viol,
